@@ -57,7 +57,7 @@ Section Sem.
     match pending with
     | [] => []
     | chunks =>
-        let current := gathered cfg pw chunks in
+        let current := gathered cfg pw (is_special base) chunks in
         if string_rejected outside current then [] else [PStr (cls_sel sc base) current]
     end.
 
@@ -179,21 +179,20 @@ Section Sem.
   Lemma zpop_to_tag_single f pws scs data n p :
     zpop_to_tag cfg (mkz [f] pws scs data) n p = mkz [f] pws scs data.
   Proof.
-    unfold zpop_to_tag. cbn [z_stack length pred zpop_loop].
-    destruct (str_eqb n (c_root cfg)); [reflexivity|]. destruct (_ && _); reflexivity.
+    unfold zpop_to_tag. cbn [z_stack length pred zpop_loop]. destruct (_ && _); reflexivity.
   Qed.
 
   (* the end tag of the element on top of the stack closes exactly it *)
   Lemma zpop_to_tag_top n p a kids parent rest pws scs :
-    str_eqb n (c_root cfg) = false ->
     zpop_to_tag cfg (mkz (mkfr n p a kids :: parent :: rest) pws scs []) n p =
     zpop (mkz (mkfr n p a kids :: parent :: rest) pws scs []).
   Proof.
-    intros NR. unfold zpop_to_tag. rewrite NR. cbn [z_stack].
+    unfold zpop_to_tag. cbn [z_stack].
     assert (C : Nat.eqb (zcount n (mkfr n p a kids :: parent :: rest)) 0 = false).
-    { unfold zcount. cbn [filter fr_name]. rewrite str_eqb_refl. reflexivity. }
+    { unfold zcount. cbn [removelast]. destruct rest; cbn [filter fr_name]; rewrite str_eqb_refl; reflexivity. }
     assert (O : zis_open (mkz (mkfr n p a kids :: parent :: rest) pws scs []) n p = true).
-    { unfold zis_open. cbn. now rewrite str_eqb_refl, opt_str_eqb_refl. }
+    { unfold zis_open. cbn [z_stack removelast]. destruct rest; cbn [existsb fr_name fr_prefix];
+        now rewrite str_eqb_refl, opt_str_eqb_refl. }
     rewrite C, O. cbn [negb andb length pred zpop_loop z_stack]. rewrite C.
     cbn [fr_name fr_prefix]. now rewrite str_eqb_refl, opt_str_eqb_refl.
   Qed.
@@ -220,25 +219,24 @@ Section Sem.
     | DTag _ _ _ _ => mkz (add_kids f (flush o pw sc data None ++ dsem_node o pw sc d) :: rest) pws scs []
     end.
   Definition Q (d : dnode) : Prop := forall f rest pws scs data,
-    names_ok (c_root cfg) d = true -> depths_ok (S (length rest)) pws scs ->
+    depths_ok (S (length rest)) pws scs ->
     fold_left (zstep cfg) (brackets d) (mkz (f :: rest) pws scs data) = after d f rest pws scs data.
 
   Lemma run_list ds : Forall Q ds -> forall f rest pws scs data,
-    forallb (names_ok (c_root cfg)) ds = true -> depths_ok (S (length rest)) pws scs ->
+    depths_ok (S (length rest)) pws scs ->
     zend_data cfg (fold_left (zstep cfg) (brackets_f ds) (mkz (f :: rest) pws scs data)) None =
     mkz (add_kids f (dsem_list (outside_of (f :: rest)) (pw_of pws) (sc_of scs) data ds) :: rest) pws scs [].
   Proof.
-    induction 1 as [|d ds Hd Hds IH]; intros f rest pws scs data NO DO.
+    induction 1 as [|d ds Hd Hds IH]; intros f rest pws scs data DO.
     - cbn [brackets_f flat_map fold_left dsem_list]. apply zend_data_flush.
-    - cbn [forallb] in NO. apply andb_true_iff in NO as [NO1 NO2].
-      unfold brackets_f. cbn [flat_map]. rewrite fold_left_app. rewrite (Hd f rest pws scs data NO1 DO).
+    - unfold brackets_f. cbn [flat_map]. rewrite fold_left_app. rewrite (Hd f rest pws scs data DO).
       destruct d as [n p a ks|cs|c t]; cbn [after dsem_list]; fold (brackets_f ds).
-      + rewrite IH; [|exact NO2|exact DO].
+      + rewrite IH; [|exact DO].
         match goal with |- context [outside_of (?x :: rest)] =>
           change (outside_of (x :: rest)) with (outside_of (f :: rest)) end.
         rewrite add_kids_app. now rewrite <- app_assoc.
       + apply IH; assumption.
-      + rewrite IH; [|exact NO2|exact DO].
+      + rewrite IH; [|exact DO].
         match goal with |- context [outside_of (?x :: rest)] =>
           change (outside_of (x :: rest)) with (outside_of (f :: rest)) end.
         rewrite add_kids_app. now rewrite <- !app_assoc.
@@ -252,9 +250,8 @@ Section Sem.
 
   Lemma all_Q : forall d, Q d.
   Proof.
-    induction d as [n p a ks IHks|cs|c t] using dnode_ind'; intros f rest pws scs data NO DO.
+    induction d as [n p a ks IHks|cs|c t] using dnode_ind'; intros f rest pws scs data DO.
     - (* an element *)
-      cbn [names_ok] in NO. apply andb_true_iff in NO as [NR NK]. apply negb_true_iff in NR.
       cbn [brackets fold_left]. change (flat_map brackets ks) with (brackets_f ks).
       rewrite fold_left_app. cbn [fold_left].
       unfold Strainer.zstep at 3. unfold Strainer.zstart. rewrite zend_data_flush. cbn [z_stack].
@@ -267,7 +264,7 @@ Section Sem.
       + (* rejected: its children are parsed at the same level, its end tag closes nothing *)
         pose proof (tag_rejected_outside _ _ _ _ RJ) as Ho. pose proof (outside_true_single f rest Ho) as ->.
         unfold Strainer.zstep at 1. unfold zend.
-        rewrite (run_list ks IHks (add_kids f F0) [] pws scs [] NK DO).
+        rewrite (run_list ks IHks (add_kids f F0) [] pws scs [] DO).
         rewrite zpop_to_tag_single.
         change (outside_of [add_kids f F0]) with o. now rewrite add_kids_app.
       + (* kept: pushed, children inside, popped by its end tag *)
@@ -282,7 +279,7 @@ Section Sem.
           - unfold scs1. destruct (assocS n (c_containers cfg)); [constructor; [cbn; lia|]|];
               (eapply Forall_impl; [|exact D2]; cbn; intros; unfold dd; lia). }
         unfold Strainer.zstep at 1. unfold zend.
-        rewrite (run_list ks IHks (mkfr n p a []) (add_kids f F0 :: rest) pws1 scs1 [] NK DO1).
+        rewrite (run_list ks IHks (mkfr n p a []) (add_kids f F0 :: rest) pws1 scs1 [] DO1).
         assert (O1 : outside_of (mkfr n p a [] :: add_kids f F0 :: rest) = false) by reflexivity.
         rewrite O1.
         assert (P1 : pw_of pws1 = pw_in pw n).
@@ -292,7 +289,7 @@ Section Sem.
         rewrite P1, S1.
         set (K := dsem_list false (pw_in pw n) (sc_in sc n) [] ks).
         unfold add_kids at 1. cbn [fr_name fr_prefix fr_attrs fr_kids]. rewrite app_nil_r.
-        rewrite (zpop_to_tag_top n p a (rev K) (add_kids f F0) rest pws1 scs1 NR).
+        rewrite (zpop_to_tag_top n p a (rev K) (add_kids f F0) rest pws1 scs1).
         unfold zpop. cbn [z_stack z_pws z_scs z_data length]. fold dd.
         assert (PW : match pws1 with d' :: r => if Nat.eqb d' dd then r else pws1 | [] => [] end = pws).
         { unfold pws1. destruct (memS n (c_pw cfg)).
@@ -315,14 +312,24 @@ Section Sem.
   Qed.
 
   (* the whole run: the contents of the document object are the denotation of the document *)
-  Theorem zfeed_dsem ds : forallb (names_ok (c_root cfg)) ds = true ->
-    zfeed pat_sem fun_sem po cfg (brackets_f ds) = dsem_list true false None [] ds.
+  (* the context the document object itself provides (normally none) *)
+  Definition root_pw : bool := memS (c_root cfg) (c_pw cfg).
+  Definition root_sc : option N := assocS (c_root cfg) (c_containers cfg).
+
+  Theorem zfeed_dsem ds :
+    zfeed pat_sem fun_sem po cfg (brackets_f ds) = dsem_list true root_pw root_sc [] ds.
   Proof.
-    intros NO. unfold zfeed, zrun, zreset.
-    assert (DO : depths_ok (S (length (@nil frame))) [] []) by (split; constructor).
-    rewrite (run_list ds (proj2 (Forall_forall Q ds) (fun d _ => all_Q d)) (mkfr (c_root cfg) None [] []) [] [] [] [] NO DO).
-    cbn [z_stack length zpop_all fr_name add_kids]. rewrite str_eqb_refl.
-    cbn [z_stack]. unfold add_kids. cbn [fr_kids]. rewrite app_nil_r, rev_involutive. reflexivity.
+    unfold zfeed, zrun, zreset.
+    set (pws0 := if memS (c_root cfg) (c_pw cfg) then [1] else []).
+    set (scs0 := match assocS (c_root cfg) (c_containers cfg) with Some c => [(1, c)] | None => [] end).
+    assert (DO : depths_ok (S (length (@nil frame))) pws0 scs0).
+    { split; [unfold pws0; destruct (memS _ _)|unfold scs0; destruct (assocS _ _)]; repeat constructor. }
+    rewrite (run_list ds (proj2 (Forall_forall Q ds) (fun d _ => all_Q d)) (mkfr (c_root cfg) None [] []) [] pws0 scs0 [] DO).
+    cbn [z_stack length zpop_all].
+    cbn [z_stack]. unfold add_kids. cbn [fr_kids]. rewrite app_nil_r, rev_involutive.
+    assert (P0 : pw_of pws0 = root_pw) by (unfold pws0, root_pw, pw_of; destruct (memS _ _); reflexivity).
+    assert (S0 : sc_of scs0 = root_sc) by (unfold scs0, root_sc, sc_of; destruct (assocS _ _); reflexivity).
+    now rewrite P0, S0.
   Qed.
 End Sem.
 
@@ -464,7 +471,7 @@ Section Keep.
     flush (Some sr) cfg true pw sc pending base = [].
   Proof.
     intros TF. unfold StrainerProofs.flush, string_rejected. destruct pending; [reflexivity|].
-    pose proof (tag_filter_rejects_strings TF (gathered cfg pw (s :: pending))) as E.
+    pose proof (tag_filter_rejects_strings TF (gathered cfg pw (is_special base) (s :: pending))) as E.
     unfold StrainerSpec.string_allowed in E. rewrite E. reflexivity.
   Qed.
 
@@ -472,25 +479,27 @@ Section Keep.
   Proof. unfold StrainerProofs.flush. destruct pending; reflexivity. Qed.
 
   Notation M_ := tag_matches.
+  Variable pw0 : bool.              (* the context at the document level *)
+  Variable sc0 : option N.
 
   (* one element, at the document level of the selective parse; (pwR, scR) is the context the same
      element has in the full parse *)
   Definition R (d : dnode) : Prop := forall pwR scR,
     single_valued sr table d = true -> ctx_ok d = true ->
-    ((pwR = false /\ scR = None) \/ has_allowed d = false) ->
-    dsem_node (Some sr) cfg true false None d = outermost_f M_ (dsem_node None cfg true pwR scR d).
+    ((pwR = pw0 /\ scR = sc0) \/ has_allowed d = false) ->
+    dsem_node (Some sr) cfg true pw0 sc0 d = outermost_f M_ (dsem_node None cfg true pwR scR d).
 
   Lemma outermost_list (TF : tag_filter sr = true) ds : Forall R ds -> forall pending pwR scR,
     forallb (single_valued sr table) ds = true -> forallb ctx_ok ds = true ->
-    ((pwR = false /\ scR = None) \/ existsb has_allowed ds = false) ->
-    dsem_list (Some sr) cfg true false None pending ds = outermost_f M_ (dsem_list None cfg true pwR scR pending ds).
+    ((pwR = pw0 /\ scR = sc0) \/ existsb has_allowed ds = false) ->
+    dsem_list (Some sr) cfg true pw0 sc0 pending ds = outermost_f M_ (dsem_list None cfg true pwR scR pending ds).
   Proof.
     induction 1 as [|d ds Hd Hds IH]; intros pending pwR scR SV CO CX; cbn [StrainerProofs.dsem_list].
     - now rewrite flush_tag_filter, outermost_flush.
     - cbn [forallb] in SV, CO. apply andb_true_iff in SV as [SV1 SV2]. apply andb_true_iff in CO as [CO1 CO2].
-      assert (CXd : (pwR = false /\ scR = None) \/ has_allowed d = false).
+      assert (CXd : (pwR = pw0 /\ scR = sc0) \/ has_allowed d = false).
       { destruct CX as [CX|CX]; [now left|]. right. cbn [existsb] in CX. now apply orb_false_iff in CX as [CX _]. }
-      assert (CXs : (pwR = false /\ scR = None) \/ existsb has_allowed ds = false).
+      assert (CXs : (pwR = pw0 /\ scR = sc0) \/ existsb has_allowed ds = false).
       { destruct CX as [CX|CX]; [now left|]. right. cbn [existsb] in CX. now apply orb_false_iff in CX as [_ CX]. }
       destruct d as [n p a ks|cs|c t].
       + rewrite !outermost_f_app, flush_tag_filter, outermost_flush by exact TF. cbn [app].
@@ -522,21 +531,10 @@ Section Keep.
       destruct (existsb has_allowed ks) eqn:HA; [left|now right].
       cbn in CX. destruct CX as [[-> ->]|CX]; [|discriminate].
       rewrite orb_false_r in CO1. apply negb_true_iff in CO1. unfold is_ctx in CO1.
-      apply orb_false_iff in CO1 as [C1 C2]. unfold pw_in, sc_in. rewrite C1.
+      apply orb_false_iff in CO1 as [C1 C2]. unfold pw_in, sc_in. rewrite C1, orb_false_r.
       destruct (assocS n (c_containers cfg)); [discriminate|]. split; reflexivity.
   Qed.
 
-  (* C16, first sentence *)
-  Theorem parse_only_outermost ds :
-    tag_filter sr = true -> forallb (names_ok (c_root cfg)) ds = true ->
-    forallb (single_valued sr table) ds = true -> forallb ctx_ok ds = true ->
-    zfeed pat_sem fun_sem (Some sr) cfg (brackets_f ds) =
-    outermost_f M_ (zfeed pat_sem fun_sem None cfg (brackets_f ds)).
-  Proof.
-    intros TF NO SV CO. rewrite !zfeed_dsem by exact NO.
-    apply (outermost_list TF); [|exact SV|exact CO|left; split; reflexivity].
-    apply Forall_forall. intros d _. now apply all_R.
-  Qed.
 
   (* ---- a filter with only string criteria ---- *)
   Definition keep_strings (ns : list pnode) : list pnode :=
@@ -552,20 +550,20 @@ Section Keep.
   Qed.
 
   Lemma flush_string_filter pending base :
-    flush (Some sr) cfg true false None pending base = keep_strings (flush None cfg true false None pending base).
+    flush (Some sr) cfg true pw0 sc0 pending base = keep_strings (flush None cfg true pw0 sc0 pending base).
   Proof.
     unfold StrainerProofs.flush, string_rejected, keep_strings. destruct pending as [|c pending]; [reflexivity|].
     cbn [andb strings_f flat_map strings_of app filter snd fst].
-    fold (string_allowed (gathered cfg false (c :: pending))).
-    destruct (string_allowed (gathered cfg false (c :: pending))); reflexivity.
+    fold (string_allowed (gathered cfg pw0 (is_special base) (c :: pending))).
+    destruct (string_allowed (gathered cfg pw0 (is_special base) (c :: pending))); reflexivity.
   Qed.
 
   Definition RS (d : dnode) : Prop := ctx_free cfg d = true ->
-    dsem_node (Some sr) cfg true false None d = keep_strings (dsem_node None cfg true false None d).
+    dsem_node (Some sr) cfg true pw0 sc0 d = keep_strings (dsem_node None cfg true pw0 sc0 d).
 
   Lemma strings_list (SF : string_filter sr = true) ds : Forall RS ds -> forall pending,
     forallb (ctx_free cfg) ds = true ->
-    dsem_list (Some sr) cfg true false None pending ds = keep_strings (dsem_list None cfg true false None pending ds).
+    dsem_list (Some sr) cfg true pw0 sc0 pending ds = keep_strings (dsem_list None cfg true pw0 sc0 pending ds).
   Proof.
     induction 1 as [|d ds Hd Hds IH]; intros pending CF; cbn [StrainerProofs.dsem_list].
     - apply flush_string_filter.
@@ -586,21 +584,12 @@ Section Keep.
     { unfold tag_rejected. cbn [andb]. pose proof (string_filter_rejects_tags SF n p a) as E.
       unfold StrainerSpec.allowed in E. now rewrite E. }
     rewrite RN, RJ. unfold keep_strings at 1. unfold strings_f. cbn [flat_map strings_of]. rewrite app_nil_r.
-    fold (strings_f (dsem_list None cfg false (pw_in cfg false n) (sc_in cfg None n) [] ks)).
-    fold (keep_strings (dsem_list None cfg false (pw_in cfg false n) (sc_in cfg None n) [] ks)).
-    unfold pw_in, sc_in. rewrite C1. cbn [orb]. destruct (assocS n (c_containers cfg)); [discriminate|].
+    fold (strings_f (dsem_list None cfg false (pw_in cfg pw0 n) (sc_in cfg sc0 n) [] ks)).
+    fold (keep_strings (dsem_list None cfg false (pw_in cfg pw0 n) (sc_in cfg sc0 n) [] ks)).
+    unfold pw_in, sc_in. rewrite C1, orb_false_r. destruct (assocS n (c_containers cfg)); [discriminate|].
     rewrite (dsem_inside None ks true). now apply (strings_list SF ks IHks).
   Qed.
 
-  (* C16, second sentence: every tag is dropped, exactly the matching text runs are kept *)
-  Theorem string_only_filter ds :
-    string_filter sr = true -> forallb (names_ok (c_root cfg)) ds = true -> forallb (ctx_free cfg) ds = true ->
-    zfeed pat_sem fun_sem (Some sr) cfg (brackets_f ds) =
-    keep_strings (zfeed pat_sem fun_sem None cfg (brackets_f ds)).
-  Proof.
-    intros SF NO CF. rewrite !zfeed_dsem by exact NO. apply (strings_list SF); [|exact CF].
-    apply Forall_forall. intros d _. now apply all_RS.
-  Qed.
 
   (* ---- a filter mixing both kinds keeps nothing ---- *)
   Lemma mixed_rejects : mixed_filter sr = true ->
@@ -612,17 +601,17 @@ Section Keep.
       destruct (null (s_name sr)), (null (s_attrs sr)); cbn in *; congruence.
   Qed.
 
-  Definition RM (d : dnode) : Prop := dsem_node (Some sr) cfg true false None d = [].
+  Definition RM (d : dnode) : Prop := dsem_node (Some sr) cfg true pw0 sc0 d = [].
 
-  Lemma flush_mixed (MF : mixed_filter sr = true) pending base : flush (Some sr) cfg true false None pending base = [].
+  Lemma flush_mixed (MF : mixed_filter sr = true) pending base : flush (Some sr) cfg true pw0 sc0 pending base = [].
   Proof.
     unfold StrainerProofs.flush, string_rejected. destruct pending; [reflexivity|].
-    pose proof (proj2 (mixed_rejects MF) (gathered cfg false (s :: pending))) as E.
+    pose proof (proj2 (mixed_rejects MF) (gathered cfg pw0 (is_special base) (s :: pending))) as E.
     unfold StrainerSpec.string_allowed in E. now rewrite E.
   Qed.
 
   Lemma mixed_list (MF : mixed_filter sr = true) ds : Forall RM ds -> forall pending,
-    dsem_list (Some sr) cfg true false None pending ds = [].
+    dsem_list (Some sr) cfg true pw0 sc0 pending ds = [].
   Proof.
     induction 1 as [|d ds Hd Hds IH]; intros pending; cbn [StrainerProofs.dsem_list].
     - now apply flush_mixed.
@@ -642,15 +631,48 @@ Section Keep.
     rewrite RJ. now apply (mixed_list MF).
   Qed.
 
+End Keep.
+
+Section Final.
+  Variable pat_sem : N -> str -> bool.
+  Variable fun_sem : N -> callarg -> bool.
+  Variable cfg : bconfig.
+  Variable sr : strainer.
+  Variable table : option cdata_table.
+
+  (* C16, first sentence *)
+  Theorem parse_only_outermost ds :
+    tag_filter sr = true ->
+    forallb (single_valued sr table) ds = true -> forallb (ctx_ok pat_sem fun_sem sr cfg) ds = true ->
+    zfeed pat_sem fun_sem (Some sr) cfg (brackets_f ds) =
+    outermost_f (tag_matches pat_sem fun_sem sr table) (zfeed pat_sem fun_sem None cfg (brackets_f ds)).
+  Proof.
+    intros TF SV CO. rewrite !zfeed_dsem.
+    apply (outermost_list pat_sem fun_sem cfg sr table (root_pw cfg) (root_sc cfg) TF); [|exact SV|exact CO|left; split; reflexivity].
+    apply Forall_forall. intros d _. now apply all_R.
+  Qed.
+
+  (* C16, second sentence: every tag is dropped, exactly the matching text runs are kept *)
+  Theorem string_only_filter ds :
+    string_filter sr = true -> forallb (ctx_free cfg) ds = true ->
+    zfeed pat_sem fun_sem (Some sr) cfg (brackets_f ds) =
+    keep_strings pat_sem fun_sem sr (zfeed pat_sem fun_sem None cfg (brackets_f ds)).
+  Proof.
+    intros SF CF. rewrite !zfeed_dsem.
+    apply (strings_list pat_sem fun_sem cfg sr (root_pw cfg) (root_sc cfg) SF); [|exact CF].
+    apply Forall_forall. intros d _. now apply all_RS.
+  Qed.
+
   (* C16, third sentence *)
   Theorem mixed_keeps_nothing ds :
-    mixed_filter sr = true -> forallb (names_ok (c_root cfg)) ds = true ->
+    mixed_filter sr = true ->
     zfeed pat_sem fun_sem (Some sr) cfg (brackets_f ds) = [].
   Proof.
-    intros MF NO. rewrite zfeed_dsem by exact NO. apply (mixed_list MF).
+    intros MF. rewrite zfeed_dsem.
+    apply (mixed_list pat_sem fun_sem cfg sr (root_pw cfg) (root_sc cfg) MF).
     apply Forall_forall. intros d _. now apply all_RM.
   Qed.
-End Keep.
+End Final.
 
 (* ------------------------------------------------------------------------------------------ *)
 (* Witnesses over the tables generated from the source (coq/Gen/Tables.v)                      *)
@@ -673,7 +695,7 @@ Definition doc_pre_b : list dnode :=
    the kept <b> loses the whitespace its rejected <pre> ancestor preserves in the full parse *)
 Lemma rejected_context_refuted :
   exists ds,
-    tag_filter sr_b = true /\ forallb (names_ok (c_root html_cfg)) ds = true /\
+    tag_filter sr_b = true /\
     forallb (single_valued sr_b (Some default_cdata_list_attributes)) ds = true /\
     zfeed no_pat16 no_fun16 (Some sr_b) html_cfg (brackets_f ds) <>
     outermost_f (tag_matches no_pat16 no_fun16 sr_b (Some default_cdata_list_attributes))
@@ -692,7 +714,7 @@ Definition doc_ok : list dnode :=
                              DTag (lit "a") None [] []];
    DText [lit "x"]].
 Example tag_domain_inhabited :
-  tag_filter sr_b_id = true /\ forallb (names_ok (c_root html_cfg)) doc_ok = true /\
+  tag_filter sr_b_id = true /\
   forallb (single_valued sr_b_id (Some default_cdata_list_attributes)) doc_ok = true /\
   forallb (ctx_ok no_pat16 no_fun16 sr_b_id html_cfg) doc_ok = true /\
   List.length (zfeed no_pat16 no_fun16 (Some sr_b_id) html_cfg (brackets_f doc_ok)) = 1%nat.
